@@ -31,6 +31,7 @@ func processTableDepth(
 	incompleteTableDepthMap map[string]int,
 	visitedTableAttrs map[string]string,
 ) {
+	remaining := len(incompleteTableDepthMap)
 	for tableName := range incompleteTableDepthMap {
 		processComplete, size, tempVisitedAttrs := findTableDepth(tableName, tableMap[tableName],
 			visitedTableAttrs, completeTableDepthMap)
@@ -49,6 +50,23 @@ func processTableDepth(
 		}
 	}
 	if len(incompleteTableDepthMap) != 0 {
+		if len(incompleteTableDepthMap) == remaining {
+			// no table could be completed in this pass: the rest reference missing tables or
+			// columns, or each other in a cycle. Give them the next depth instead of recursing forever.
+			depth := 0
+			for d := range completedTableDepthMap {
+				if d >= depth {
+					depth = d + 1
+				}
+			}
+			var names []string
+			for tableName := range incompleteTableDepthMap {
+				names = append(names, tableName)
+			}
+			sort.Strings(names)
+			completedTableDepthMap[depth] = append(completedTableDepthMap[depth], names...)
+			return
+		}
 		processTableDepth(tableMap, completedTableDepthMap, completeTableDepthMap, incompleteTableDepthMap,
 			visitedTableAttrs)
 	}
@@ -70,7 +88,7 @@ func findTableDepth(
 		}
 		for _, attrName := range attrNames {
 			attrType := relEntity.AttrDefs[attrName]
-			if typeRef := attrType.GetTypeRef(); typeRef != nil {
+			if typeRef := attrType.GetTypeRef(); typeRef != nil && len(typeRef.GetRef().GetPath()) >= 2 {
 				if val, ok := visitedTableAttrs[typeRef.GetRef().Path[0]+"."+typeRef.GetRef().Path[1]]; ok {
 					newDepth := completeTableDepthMap[typeRef.GetRef().Path[0]] + 1
 					tempVisitedAttrs[tableName+"."+attrName] = val
